@@ -55,18 +55,30 @@ long immediates (ADD SUB LD ADDM CMPM MAC MPY ST STM), 0..65535 for the logical 
 BITF) and the counts (RPT, RPTZ).  The other reading of the 16-bit field is not generated; a value that fits
 neither reading must be rejected.
 
+Must be rejected (cannot be encoded): a condition list that breaks the grouping rules (category used twice, two
+accumulators, groups mixed); OV/NOV/TC/C/BIO/UNC for SACCD/SRCCD/STRCD (4-bit field, accumulator comparisons
+only); an indirect operand that is no Xmem/Ymem (AR0, AR1, AR6, AR7 or another modification) where the
+instruction only exists with dual operands; the long-offset modes for a memory-mapped-register operand; MVMM
+registers other than 10h..18h; shift counts, bit codes and short constants beyond their fields.
+
 Excluded by construction:
   * parallel instructions (two source lines; the AS syntax is not documented for this family)
   * direct addresses above 127 (TI's field holds 7 bits; AS masks and warns), >= 65536 must be rejected
   * forms for which TI defines several encodings of the same source text: an explicit shift of 0 where the
     unshifted one-word form exists, Xmem-capable operands with SHFT 0..15 and src = dst in the long-shift
-    (6F) form, LD #0..255 in the #lk form, RPT #0..255 in the #lk form, `op Smem,src,src` (no shift)
+    (6F) form, LD #0..255 in the #lk form, RPT #0..255 in the #lk form, `op Smem,src,src` (no shift);
+    LD Smem,dst with an operand that is also a valid Xmem (AS emits the equivalent LD Xmem,0,dst = 94x0
+    instead of 10xx, which its two-line scheme for the parallel LD||MAC relies on)
   * RPT / RPTZ are written through a macro (prologue) that places a NOP behind them: AS remembers a repeat
     instruction and refuses a following instruction TI lists as not repeatable, which would hit whatever
-    instruction is drawn next
-  * SSBX / RSBX with a single (symbolic) operand, MMR names, `*+ARx` restrictions for read operands, the
-    restrictions on the use of the long-offset modes with memory-mapped-register instructions (not offered)
-  * device dependent far forms' page bits beyond 7 bits (none exist)
+    instruction is drawn next; the reference encoding of these forms includes the NOP word
+  * SSBX / RSBX with a single (symbolic) operand, STM / ST without '#' (AS extensions), MMR names, TI's
+    "*+ARx only for write operands" rule, direct addressing relative to SP (CPL) or another data page
+KNOWN (asserted by the golden image tests/t_3254x, therefore not repaired; proposals in proposed/C14/c54x-*.md):
+  * SUB #lk[,SHFT],src[,dst] assembles to F02x (= LD #lk,SHFT,dst) instead of F01x       - forms left out
+  * LD Smem,DP assembles to 26xx (= SQUR Smem,A) instead of 46xx                         - form left out
+  * ADD/SUB Smem,SHIFT,src[,dst] (6F group) with *ARx(lk), *+ARx(lk), *+ARx(lk)%, *(lk): second opcode word and
+    lk word swapped                                                                    - these operands left out
 """
 from .common import Form, Int, Enum, Isa, words
 
@@ -179,7 +191,11 @@ KINDS = {
     "idx": (lambda: [Enum([n for n, _ in IDX]), LKOFF()], "{a}({b})", lambda m: IDX[m[0]][1], lambda m: m[1]),
     "idxc": (lambda: [Enum(AR), LKOFF()], "*+{a}({b})%", lambda m: 0x80 | 14 << 3 | m[0], lambda m: m[1]),
     "abs": (lambda: [LKABS()], "*({a})", lambda m: 0xF8, lambda m: m[0]),
+    # memory-mapped-register operand: the modes with an lk word do not exist here and must be rejected
+    "mmrind": (lambda: [EnumBut([n for n, _ in IND] + MMR_BAD, range(len(IND), len(IND) + len(MMR_BAD)))], "{a}",
+               lambda m: IND[m[0]][1], None),
 }
+MMR_BAD = ["*AR3(5)", "*+AR2(10h)", "*+AR1(3)%", "*(60h)"]
 SMEM = ("dma", "ind", "idx", "idxc", "abs")
 SMEM_NX = ("dma", "indnx", "idx", "idxc", "abs")       # never an Xmem
 # KNOWN: ADD / SUB long-shift (6F) forms with a long-offset / absolute memory operand (*ARx(lk), *+ARx(lk),
@@ -187,7 +203,7 @@ SMEM_NX = ("dma", "indnx", "idx", "idxc", "abs")       # never an Xmem
 # 6Fxx lk 0Cxx (the lk of an Smem is always the second instruction word - AS itself does so for LD/STH/STL);
 # asserted by tests/t_3254x - proposed/C14/c54x-addsub-longshift-lk-order.md.  ADD/SUB use SMEM_NX_NOLK.
 SMEM_NX_NOLK = ("dma", "indnx")
-MMR = ("dma", "ind")
+MMR = ("dma", "mmrind")
 SIND = ("ind", "idx", "idxc")
 
 
